@@ -3,7 +3,7 @@ MIR_NOTE = ('Bounded symbolic execution, not a proof. Trusted: rustc nightly MIR
             'the OpenMLS/storage environment contracts listed in the evidence, z3. Callee results are nondeterministic; loops and symbolic lists are '
             'unrolled to the stated bounds with an unwinding check (a path hitting the bound makes the check BROKEN, not passing).')
 ENGINES = [
-    dict(name='mirsym', path='/verif/mirsym', serves_properties=['C02', 'C04', 'C05'],
+    dict(name='mirsym', path='/verif/mirsym', serves_properties=['C01', 'C02', 'C04', 'C05', 'C07', 'C08', 'C16'],
          kind_free_text='E3/E3c: symbolic execution (z3) of the textual MIR of the repository crates, regenerated from the working tree on every run'),
     dict(name='kani-direct', path='/verif/kani/direct', serves_properties=['C18'],
          kind_free_text='E1: Kani 0.68 / CBMC 6.11 harnesses (kani::any inputs, unwind bounds, cover! vacuity witnesses) over the compiled real code'),
@@ -12,6 +12,28 @@ NOTES = ('Solver-based checking of the real code: CBMC via Kani over compiled Ru
          "repository's MIR and SQL. Every claim is bounded; see DESIGN.md. Exit 2 = broken/inconclusive machinery, never a VIOLATION.")
 PENDING = 'check not built yet in this revision of /verif (work in progress; see DESIGN.md section 5 for the planned obligations)'
 CHECKS = [
+    dict(id='C01', engine='mirsym', design_ref='DESIGN.md section 5, C01',
+         technique='symbolic execution of the compiler MIR with z3: call-graph-derived function set, per-path ordering and dataflow assertions; native replay of findings',
+         text='On every path of every mdk-core function that can merge a commit (set recomputed from the MIR call graph) z3-guarded exploration shows a snapshot of the pre-merge epoch, '
+              'taken with the wrapper id/timestamp and only after validation, precedes the merge; the WrongEpoch arm rolls back exactly when the candidate is better and then performs the '
+              'documented sequence; the OpenMLS verdict mapping (WrongEpoch epoch, OwnCommitPending) is exact. One known finding (immediate merge without snapshot) is listed in known_findings.txt.',
+         note=MIR_NOTE + ' Kernel level: end-to-end convergence needs OpenMLS (contracts K1-K3 of DESIGN.md). The snapshot-manager order/bookkeeping obligations (O1-O3) are E3c obligations.'),
+    dict(id='C07', engine='mirsym', design_ref='DESIGN.md section 5, C07',
+         technique='symbolic execution of the compiler MIR with z3: totality over record states by satisfiability queries, write-freedom of handled-event paths',
+         text='For every ProcessedMessageState (symbolic discriminant; totality checked by SAT queries against the enum declaration) the dedup gate, the own-echo arm and the stale-commit arm '
+              'are shown to perform no state-changing call beyond the documented ones; an own echo is taken for the pending commit only if it is a Commit.',
+         note=MIR_NOTE + ' Not covered: what OpenMLS does with a replayed ciphertext; storage upsert idempotence (C10).'),
+    dict(id='C08', engine='mirsym', design_ref='DESIGN.md section 5, C08',
+         technique='symbolic execution of the compiler MIR with z3: dataflow equality of symbolic terms between MLS state/extension and the saved record',
+         text='Every merging function re-synchronises the stored record on every successful path; sync_group_metadata_from_mls is shown to copy each mirrored field '
+              '(epoch, name, description, image fields, admins, Nostr group id) from the MLS group of that id and to replace the relay set, writing nothing if the extension fails to parse.',
+         note=MIR_NOTE + ' Routing-index obligations on the storage backends (O3/O4) belong to the storage engines.'),
+    dict(id='C16', engine='mirsym', design_ref='DESIGN.md section 5, C16',
+         technique='symbolic execution of the compiler MIR with z3: write-freedom of dedup/refusal paths, dominance of the active-group guard; native replay on real OpenMLS groups',
+         text='Every path of process_welcome / preview_welcome / accept_welcome / decline_welcome is enumerated: dedup and refusal paths are write-free (except the failed-welcome record), '
+              'only Pending is written before consent, Active only after into_group succeeded, and the pending record is never written over a group the user is active in '
+              '(z3 proves the guarding lookup excludes Active on every saving path).',
+         note=MIR_NOTE + ' Not covered: that the joined state equals the inviter\'s post-commit state (OpenMLS).'),
     dict(id='C02', engine='mirsym', design_ref='DESIGN.md section 5, C02',
          technique='symbolic execution of the compiler MIR with z3: bit-vector window arithmetic, path enumeration with per-path assertions',
          text='For all 64-bit epochs and look-back values up to the bound, z3 shows the past-epoch decryption loop tries exactly cur-1..max(0,cur-lookback) in order; '
@@ -43,4 +65,4 @@ NOT_APPLICABLE = [
     dict(property_id='C14', reason='needs core::fmt executed on every path or a taint analysis; formatting is what this family stubs out'),
     dict(property_id='C19', reason='thread interleavings: Kani sequentialises atomics and rejects thread::spawn; parking_lot crashes the Kani compiler; no concurrency engine in this family here'),
 ] + [dict(property_id=p, reason=PENDING) for p in
-     ['C01', 'C06', 'C07', 'C08', 'C09', 'C10', 'C11', 'C12', 'C15', 'C16', 'C17', 'C20']]
+     ['C06', 'C09', 'C10', 'C11', 'C12', 'C15', 'C17', 'C20']]
